@@ -65,6 +65,9 @@ func applyFault(d, spec string) string {
 			return "\xe9" + d
 		}
 		return d[:i+1] + "caf\xe9" + d[i+1:]
+	case "lit":
+		// the stored bytes are this literal (documents on which later stages choke: [], {}, 7, null)
+		return strings.Join(parts[1:], ":")
 	case "file":
 		// misdirected read: the path resolved to another (non JSON-LD) file
 		b, err := os.ReadFile(strings.Join(parts[1:], ":"))
